@@ -83,6 +83,7 @@ pub fn c03_oracle(case: &ConvCase, exp: &Expected, obs: &Observation, _nonce: &s
 pub fn mal_class(m: &crate::wire::Malform) -> String {
     use crate::wire::{Malform::*, Place};
     match m {
+        ReqLineFields(3) => "request-line-without-target".to_string(),
         ReqLineFields(n) => format!("request-line-{}-fields", n),
         VersionToken(v) if v == "HTTP/2.0" || v == "HTTP/3.0" => "version-above-1.1".to_string(),
         VersionToken(_) => "unrecognised-version-token".to_string(),
